@@ -5,7 +5,6 @@ import (
 	"errors"
 
 	"google.golang.org/grpc"
-	"google.golang.org/protobuf/proto"
 	"google.golang.org/protobuf/types/known/emptypb"
 
 	pb "github.com/bartossh/Computantis/src/protobufcompiled"
@@ -133,7 +132,8 @@ func rpcTable(thorough bool) []*rpcDef {
 		{name: "Notary.Confirm", sch: trxS,
 			build: func(g getter, cons bool, _ *wctx) any { return buildTrx(g, "", cons) },
 			call:  func(w *wctx, m any) (any, error) { return w.n0.Notary.Confirm(bg, m.(*pb.Transaction)) }},
-		shRPC("Notary.Reject", B, "", func(w *wctx, n int) []byte { return fit(w.awaited.Hash, "65", 0x31) }, nil,
+		shRPC("Notary.Reject", B, "unaffordable", func(w *wctx, n int) []byte { return fit(w.awaited.Hash, "65", 0x31) },
+			func(w *wctx) map[string][]byte { return map[string][]byte{"unaffordable": w.awaited2.Hash} },
 			func(w *wctx, m *pb.SignedHash) (any, error) { return w.n0.Notary.Reject(bg, m) }),
 		shRPC("Notary.Waiting", A, "challenge", nil, func(w *wctx) map[string][]byte { return map[string][]byte{"challenge": w.challenge[A.Addr]} },
 			func(w *wctx, m *pb.SignedHash) (any, error) { return w.n0.Notary.Waiting(bg, m) }),
@@ -174,7 +174,7 @@ func rpcTable(thorough bool) []*rpcDef {
 				return m
 			},
 			call: func(w *wctx, m any) (any, error) {
-				return w.n0.Gossip.Server().GossipVrx(bg, proto.Clone(m.(*pb.VrxMsgGossip)).(*pb.VrxMsgGossip))
+				return w.n0.Gossip.Server().GossipVrx(bg, m.(*pb.VrxMsgGossip)) // the message is built for this one call
 			}},
 		{name: "Gossip.GossipTrx", sch: gtS,
 			build: func(g getter, cons bool, w *wctx) any {
@@ -188,7 +188,7 @@ func rpcTable(thorough bool) []*rpcDef {
 				return m
 			},
 			call: func(w *wctx, m any) (any, error) {
-				return w.n0.Gossip.Server().GossipTrx(bg, proto.Clone(m.(*pb.TrxMsgGossip)).(*pb.TrxMsgGossip))
+				return w.n0.Gossip.Server().GossipTrx(bg, m.(*pb.TrxMsgGossip))
 			}},
 		shRPC("Gossip.GetVertex", A, "", func(w *wctx, n int) []byte { return fit(w.tip.Hash[:], "65", 0x33) }, nil,
 			func(w *wctx, m *pb.SignedHash) (any, error) { return w.n0.Gossip.Server().GetVertex(bg, m) }),
@@ -211,9 +211,6 @@ func rpcTable(thorough bool) []*rpcDef {
 			},
 			call: func(w *wctx, m any) (any, error) {
 				evil.next, evil.armed = m.(*pb.Vertex), true
-				if evil.next != nil {
-					evil.next = proto.Clone(evil.next).(*pb.Vertex)
-				}
 				w.n0.Gossip.ProcessLackingParent(bg, pad32(filler(32, 0x41)))
 				return nil, nil
 			}},
